@@ -69,6 +69,7 @@ class Prov:
         self.defaulted = set()
         self.s1 = {}
         self.s2 = {}
+        self.error_unpacked = self._error_unpack_sites()
         self._seed()
 
     # ---------------------------------------------------------------- seeds
@@ -99,6 +100,40 @@ class Prov:
                 self.fixed[(fk, base + 2)] = {"RULE"}
         for k, v in self.fixed.items():
             self.tags[k] = set(v)
+
+    def _error_unpack_sites(self):
+        """Places where something is taken out of a value of the crate's error type (the E of the entry point's
+        Result<_, E>), outside the error type's own module (its Display/Debug impls).  When there are none, an error is
+        opaque to the interpreter: whatever JSON value an error carries can never come back as a value that is tested,
+        parsed or returned — so the Err side of `x?` and of `Result::and_then` hands on no provenance (as the Err side
+        of `Result::map` never did)."""
+        import re as _re
+        out_ty = (self.facts.items.get(self.roles.entry.key) or {}).get("output") or ""
+        m = _re.match(r"^std::result::Result<.*, ([\w:]+)>$", out_ty)
+        if not m:
+            return ["error type not identified"]
+        self.error_adt = m.group(1)
+        home = self.facts.crate + "::" + self.error_adt.rsplit("::", 1)[0] + "::" if "::" in self.error_adt else None
+        sites = []
+
+        def scan(b, bi, x):
+            if isinstance(x, dict):
+                pj = x.get("proj")
+                if isinstance(pj, list) and any(isinstance(q, dict) and q.get("k") == "Downcast" and q.get("adt") == self.error_adt for q in pj):
+                    if any(isinstance(q, dict) and q.get("k") == "Field" for q in pj):
+                        sites.append("%s bb%d" % (b.key, bi))
+                for v in x.values():
+                    scan(b, bi, v)
+            elif isinstance(x, list):
+                for v in x:
+                    scan(b, bi, v)
+        for b in self.facts.bodies.values():
+            if b.kind not in ("fn", "closure") or (home and b.key.startswith(home)):
+                continue
+            for bi, blk in enumerate(b.blocks):
+                scan(b, bi, blk["stmts"])
+                scan(b, bi, blk["term"])
+        return sites
 
     # -------------------------------------------------------------- helpers
     def _add(self, key, new):
@@ -191,6 +226,16 @@ class Prov:
         tgt = self.mutalias.get((b.key, place["local"]))
         if tgt is not None and any(p["k"] == "Deref" for p in place["proj"]):
             self._set((b.key, tgt), new)
+        # an assignment through a variable captured by &mut (`*captured = v` inside a closure) is visible in the
+        # creating body — as the mutation through &mut arguments of calls already was
+        ci = self.mutcap.get((b.key, place["local"])) if b.kind == "closure" else None
+        if ci is not None and any(p["k"] == "Deref" for p in place["proj"]):
+            cr = b.creator()
+            if cr is not None and ci < len(cr[1]):
+                cb, o = cr[0], cr[1][ci]
+                if o["k"] in ("Copy", "Move") and not o["place"]["proj"]:
+                    ctgt = self.mutalias.get((cb.key, o["place"]["local"]), o["place"]["local"])
+                    self._set((cb.key, ctgt), new)
 
     def _body(self, b):
         for bi in self.blocks(b):
@@ -361,6 +406,10 @@ class Prov:
             if info and info["role"] == "lazy" and isinstance(cv, int) and self._is_args_param(b, base, root):
                 self._flow_to_place(b, dest, {"RULE#%d" % cv})
                 return
+        # ---- `x?` on a Result: what is handed on is the error, and errors are opaque (see _error_unpack_sites)
+        if path.endswith("::from_residual") and "std::result::Result<" in path and not self.error_unpacked:
+            self._flow_to_place(b, dest, set())
+            return
         # ---- std adaptors with callable arguments
         ck = (b.key, bi)
         calls = _CALLABLE_CACHE.get((id(self.facts), ck))
@@ -384,7 +433,8 @@ class Prov:
                 res = out if meth in ("map", "filter_map", "flat_map", "find_map", "map_while") else (atags[0] | out)
             elif is_optres and meth in OPT_FN and len(args) == 2 and calls[-1][0] == 1:
                 out = self._feed_callable(b, bi, calls[-1][1], [atags[0]])
-                res = out | (atags[0] if meth != "map" else set())
+                # map: only the closure's result; and_then likewise when errors are opaque (the Err side hands on an error)
+                res = out | (atags[0] if not (meth == "map" or (meth == "and_then" and not self.error_unpacked)) else set())
             elif is_optres and meth in ("map_or", "map_or_else") and len(args) == 3 and calls and calls[-1][0] == 2:
                 # x.map_or(default, f) / x.map_or_else(g, f): the payload goes to the last callable, the result is its
                 # result or the default (for map_or_else: what the first callable returns)
@@ -408,7 +458,12 @@ class Prov:
         else:
             res = set(allt)
         # mutation through &mut arguments (push, insert, extend, push_str …)
+        # (not the receiver of an Iterator method that takes a callable — `it.find_map(f)`, `it.try_fold(s, f)`, `it.any(f)`
+        #  on `&mut it`: the iterator is advanced, `f` and the seed have no access to it, nothing they carry gets into it)
+        iter_recv = bool(calls) and is_iter and meth in (FOLD | ITEM_FN | {"try_for_each"})
         for i, a in enumerate(args):
+            if i == 0 and iter_recv:
+                continue
             if a["k"] in ("Copy", "Move") and not a["place"]["proj"]:
                 tgt = self.mutalias.get((b.key, a["place"]["local"]))
                 if tgt is not None:
